@@ -81,7 +81,8 @@ type hsClient struct {
 	Host       string
 	RBuf, WBuf int
 	URL        string
-	Debug      int // 0 plain Dialer.Upgrade, 1 DebugDialer (both callbacks), 2 OnRequest only, 3 OnResponse only
+	Debug      int  // 0 plain Dialer.Upgrade, 1 DebugDialer (both callbacks), 2 OnRequest only, 3 OnResponse only, 4 plain Dialer.Dial
+	Wrap       bool // Dial paths: the application installs its own WrapConn
 }
 
 type hsServer struct {
@@ -162,7 +163,8 @@ func drawHS(r *eng.Run) (hsClient, hsServer) {
 	c.WBuf = bufSizesHS[r.T.Int(sim.LSize, len(bufSizesHS))]
 	c.URL = []string{"ws://example.com/", "ws://example.com:8080/chat?x=1&y=2", "ws://[::1]:9000/p/a/t/h", "ws://h/" + strings.Repeat("seg/", 20)}[r.T.Int(sim.LCfg, 4)]
 	if r.T.Chance(sim.LEntry, 1, 3) {
-		c.Debug = 1 + r.T.Int(sim.LEntry, 3)
+		c.Debug = 1 + r.T.Int(sim.LEntry, 4)
+		c.Wrap = r.T.Bool(sim.LCfg)
 	}
 
 	s.Kind = []int{0, 0, 0, 1, 1, 2}[r.T.Int(sim.LEntry, 6)]
@@ -227,19 +229,40 @@ func (s hsServer) String() string {
 // Running the peers
 
 type hsOutcome struct {
-	Err       error
-	Protocol  string
-	Exts      []httphead.Option
-	Written   []byte // everything the peer wrote to the transport
-	Head      []byte // handshake part of Written (without trailing frames)
-	Rest      []byte // client: bytes readable after the handshake (buffer then conn)
-	OnReq     []byte
-	OnResp    []byte
-	HasOnReq  bool
-	HasOnResp bool
-	Consumed  int
-	Pipe      *Pipe
-	Panic     string
+	Err           error
+	Protocol      string
+	Exts          []httphead.Option
+	Written       []byte // everything the peer wrote to the transport
+	Head          []byte // handshake part of Written (without trailing frames)
+	Rest          []byte // client: bytes readable after the handshake (buffer then conn)
+	OnReq         []byte
+	OnResp        []byte
+	HasOnReq      bool
+	HasOnResp     bool
+	Consumed      int
+	Pipe          *Pipe
+	Panic         string
+	Wrapped       *recConn // the application's wrapper, if any
+	ConnIsWrapper bool
+}
+
+// recConn is an application-level WrapConn result that records what passes
+// through it.
+type recConn struct {
+	net.Conn
+	read, written []byte
+}
+
+func (c *recConn) Read(p []byte) (int, error) {
+	n, err := c.Conn.Read(p)
+	c.read = append(c.read, p[:n]...)
+	return n, err
+}
+
+func (c *recConn) Write(p []byte) (int, error) {
+	n, err := c.Conn.Write(p)
+	c.written = append(c.written, p[:n]...)
+	return n, err
 }
 
 func (o *hsOutcome) ok() bool { return o.Err == nil }
@@ -449,6 +472,12 @@ func runClient(r *eng.Run, c hsClient, p *Pipe) *hsOutcome {
 		br, hs, o.Err = d.Upgrade(p, u)
 	} else {
 		d.NetDial = func(ctx context.Context, network, addr string) (net.Conn, error) { return p, nil }
+		if c.Wrap {
+			d.WrapConn = func(nc net.Conn) net.Conn {
+				o.Wrapped = &recConn{Conn: nc}
+				return o.Wrapped
+			}
+		}
 		dd := &wsutil.DebugDialer{Dialer: d}
 		if c.Debug == 1 || c.Debug == 2 {
 			dd.OnRequest = func(b []byte) { o.OnReq, o.HasOnReq = append([]byte(nil), b...), true }
@@ -457,9 +486,16 @@ func runClient(r *eng.Run, c hsClient, p *Pipe) *hsOutcome {
 			dd.OnResponse = func(b []byte) { o.OnResp, o.HasOnResp = append([]byte(nil), b...), true }
 		}
 		var nc net.Conn
-		nc, br, hs, o.Err = dd.Dial(context.Background(), c.URL)
+		if c.Debug == 4 {
+			nc, br, hs, o.Err = d.Dial(context.Background(), c.URL)
+		} else {
+			nc, br, hs, o.Err = dd.Dial(context.Background(), c.URL)
+		}
 		if nc != nil {
 			conn = nc
+			if rc, ok := nc.(*recConn); ok && rc == o.Wrapped {
+				o.ConnIsWrapper = true
+			}
 		}
 	}
 	o.Protocol, o.Exts = hs.Protocol, hs.Extensions
@@ -651,6 +687,22 @@ func checkWrappers(r *eng.Run, t *hsTrip) {
 		if !bytes.Equal(cl.OnResp, want) {
 			r.Failf("debug_dialer_response_bytes", "DebugDialer.OnResponse got %d bytes, the response has %d%s", len(cl.OnResp), len(want), firstDiff(cl.OnResp, want))
 		}
+	}
+	if cl.Wrapped != nil {
+		// The application's own WrapConn must carry the whole handshake and be
+		// the connection Dial hands back.
+		if !bytes.Equal(cl.Wrapped.written, t.Request) {
+			r.Failf("wrapconn_bypassed", "the application's WrapConn saw %d request bytes, %d were sent (debug=%d)", len(cl.Wrapped.written), len(t.Request), t.C.Debug)
+		}
+		if cl.ok() && !cl.ConnIsWrapper {
+			r.Failf("wrapconn_bypassed", "Dial did not return the connection produced by the application's WrapConn (debug=%d)", t.C.Debug)
+		}
+		if cl.ok() && len(cl.Wrapped.read) < headEnd(sv.Head) {
+			r.Failf("wrapconn_bypassed", "the application's WrapConn saw %d response bytes, the head has %d (debug=%d)", len(cl.Wrapped.read), headEnd(sv.Head), t.C.Debug)
+		}
+		r.Probe("dial_with_application_wrapconn")
+	} else if t.C.Wrap && t.C.Debug != 0 {
+		r.Failf("wrapconn_bypassed", "the application's WrapConn was never called (debug=%d)", t.C.Debug)
 	}
 	if cl.ok() {
 		if !bytes.Equal(cl.Rest, t.S.Trailing) {
